@@ -5,7 +5,7 @@ from vlib import streams as S, core
 ID = "C03"
 LEAN_MODULES = ["LhasaV.Props.C03"]
 VH_FEATURES = ["decoder"]
-THEOREMS = {
+THEOREMS = {"lz_init_matches_source": "full (translator tie): the rings and write positions lha_lz5_init / lha_lzs_init of the working tree build, dumped on every run, = the models' initial states", 
     "lzs_decode_serialise": "full: every valid command list, declared length, schedule, callback chunking",
     "lz5_decode_serialise": "full (callback answers in full: the decoder's contract)",
     "null_identity": "full: every byte string, declared length, schedule, chunking",
